@@ -1,9 +1,300 @@
-/- C14 — executable model (core Lean only).  Stub. -/
+/-
+C14 — executable model of the quality measure (`optimize/cell.py`: `CellBase.quality`,
+`get_edge_lengths`, `HexCell/QuadCell.get_side_normals`, `get_inner_angles`; `GridBase.quality`).
+
+The measure is split into
+  * an exact rational *signature* `Sig` (per side and triangle `(n·c, |n|², |c|²)`, per corner
+    `(s₁·s₂, |s₁|², |s₂|²)`, squared lengths of the edges of `edge_pairs`) — everything the code
+    computes before it takes a square root,
+  * its scale-free normal form `Sig0` (signed squared cosines, squared aspect ratio),
+  * an opaque `Float` post-processing `G` (sqrt / acos / pow / log10 exactly as `CellBase.quality`
+    applies them, with the `VSMALL` guards) applied to the *canonicalised* (sorted) signature.
+Theorems are about `Sig`/`Sig0`; invariance of the value follows by congruence for any `G`.
+Core Lean only.
+-/
 import CBV.Model.Common
+import CBV.Model.C15
 import CBV.Gen.Tables
 
 namespace CBV.C14
+open CBV
 
-def handle (_op : String) (_args : List String) : Option String := none
+/-- `points[i]` of a cell -/
+def pt (ps : List V3) (i : Nat) : V3 := ps.getD i V3.zero
+
+def vsum : List V3 → V3
+  | [] => V3.zero
+  | x :: xs => x + vsum xs
+
+/-- `np.average(points, axis=0)` -/
+def avg (ps : List V3) : V3 := V3.smul (1 / (ps.length : Rat)) (vsum ps)
+
+/-- `np.roll(a, -1, axis=0)` -/
+def rollL {α : Type} : List α → List α
+  | [] => []
+  | x :: xs => xs ++ [x]
+
+/-- `np.roll(a, 1, axis=0)` -/
+def rollR {α : Type} (l : List α) : List α :=
+  match l.getLast? with
+  | none => []
+  | some x => x :: l.dropLast
+
+/-- what enters one arccos: numerator and the two squared norms -/
+structure Tri where
+  nc : Rat
+  nn : Rat
+  cc : Rat
+  deriving DecidableEq, Repr, Inhabited
+
+def mkTri (a b : V3) : Tri := ⟨V3.dot a b, V3.norm2 a, V3.norm2 b⟩
+
+/-- centre-to-centre vector: to the neighbour's centre, or to the side centre on a boundary side -/
+def c2c (centre sideCentre : V3) (nb : Option V3) : V3 :=
+  match nb with
+  | none => centre - sideCentre
+  | some c => centre - c
+
+/-- One side of a `HexCell` (`sp` = its four points in `side_indexes` order): the four triangle
+    normals of `get_side_normals` against `c2c`, and the four corner angles of `get_inner_angles`. -/
+def hexSide (sp : List V3) (centre : V3) (nb : Option V3) : List Tri × List Tri :=
+  let sc := avg sp
+  let d := c2c centre sc nb
+  let s1 := sp.map (fun p => p - sc)
+  let s2 := (rollL sp).map (fun p => p - sc)
+  let ns := List.zipWith V3.cross s1 s2
+  let a := List.zipWith (fun p q => p - q) (rollL sp) sp
+  let b := List.zipWith (fun p q => p - q) (rollR sp) sp
+  (ns.map (fun n => mkTri n d), List.zipWith mkTri a b)
+
+/-- One side `i` of a `QuadCell`: `get_side_normals(i)` (cell normal from corners 0,1,3 crossed with
+    the side vector) against `c2c`, and `get_inner_angles(i)` (corner `i` between `i+1` and `i-1`). -/
+def quadSide (pts : List V3) (i : Nat) (idx : List Nat) (centre : V3) (nb : Option V3) : Tri × Tri :=
+  let sp := idx.map (pt pts)
+  let normal := V3.cross (pt pts 1 - pt pts 0) (pt pts 3 - pt pts 0)
+  let sv := pt sp 1 - pt sp 0
+  let n := V3.cross normal sv
+  let d := c2c centre (avg sp) nb
+  let p0 := pt pts ((i + 3) % 4)
+  let p1 := pt pts i
+  let p2 := pt pts ((i + 1) % 4)
+  (mkTri n d, mkTri (p2 - p1) (p0 - p1))
+
+/-- the rational signature of a cell -/
+structure Sig where
+  tris : List Tri
+  corners : List Tri
+  edges : List Rat
+  deriving DecidableEq, Repr
+
+/-- `get_edge_lengths` (squared); `pairs` = the corner pairs it measures (generated table
+    `hexAspectPairs` / `quadAspectPairs`, read off the running code) -/
+def edgeLens (pairs : List (Nat × Nat)) (pts : List V3) : List Rat :=
+  pairs.map (fun e => V3.norm2 (pt pts e.2 - pt pts e.1))
+
+/-- signature of a hexahedral cell; `nb i` = centre of the neighbour on side `i` (position in
+    `side_names`), `none` on a boundary side. Sides are visited in `side_names` order. -/
+def sigHexWith (sides : List (List Nat)) (pairs : List (Nat × Nat)) (pts : List V3) (nb : Nat → Option V3) : Sig :=
+  let centre := avg pts
+  let ss := (List.range sides.length).map (fun i => hexSide ((sides.getD i []).map (pt pts)) centre (nb i))
+  ⟨ss.flatMap (·.1), ss.flatMap (·.2), edgeLens pairs pts⟩
+
+def sigHex (pts : List V3) (nb : Nat → Option V3) : Sig :=
+  sigHexWith CBV.Gen.hexSideIdx CBV.Gen.hexAspectPairs pts nb
+
+def sigQuadWith (sides : List (List Nat)) (pairs : List (Nat × Nat)) (pts : List V3) (nb : Nat → Option V3) : Sig :=
+  let centre := avg pts
+  let ss := (List.range sides.length).map (fun i => quadSide pts i (sides.getD i []) centre (nb i))
+  ⟨ss.map (·.1), ss.map (·.2), edgeLens pairs pts⟩
+
+def sigQuad (pts : List V3) (nb : Nat → Option V3) : Sig :=
+  sigQuadWith CBV.Gen.quadSideIdx CBV.Gen.quadAspectPairs pts nb
+
+/-! ### scale-free normal form -/
+
+def sgn (q : Rat) : Int := if 0 < q then 1 else if q < 0 then -1 else 0
+
+/-- signed squared cosine: `cos = s·√r` -/
+structure Tri0 where
+  s : Int
+  r : Rat
+  deriving DecidableEq, Repr, Inhabited
+
+def Tri.norm (t : Tri) : Tri0 := ⟨sgn t.nc, t.nc * t.nc / (t.nn * t.cc)⟩
+
+def maxL : List Rat → Rat
+  | [] => 0
+  | x :: xs => xs.foldl max x
+
+def minL : List Rat → Rat
+  | [] => 0
+  | x :: xs => xs.foldl min x
+
+structure Sig0 where
+  tris : List Tri0
+  corners : List Tri0
+  /-- (longest edge / shortest edge)² -/
+  aspect2 : Rat
+  deriving DecidableEq, Repr
+
+def Sig.norm (s : Sig) : Sig0 := ⟨s.tris.map Tri.norm, s.corners.map Tri.norm, maxL s.edges / minL s.edges⟩
+
+/-! ### canonical form (order of summation) -/
+
+def Tri.le (a b : Tri) : Bool :=
+  a.nc < b.nc || (a.nc == b.nc && (a.nn < b.nn || (a.nn == b.nn && a.cc ≤ b.cc)))
+
+def Tri0.le (a b : Tri0) : Bool := a.s < b.s || (a.s == b.s && a.r ≤ b.r)
+
+def Sig.canon (s : Sig) : Sig :=
+  ⟨s.tris.mergeSort Tri.le, s.corners.mergeSort Tri.le, s.edges.mergeSort (fun a b => a ≤ b)⟩
+
+def Sig0.canon (s : Sig0) : Sig0 := ⟨s.tris.mergeSort Tri0.le, s.corners.mergeSort Tri0.le, s.aspect2⟩
+
+/-! ### the code's guards: when `quality` raises `ValueError("Degenerate Cell")` -/
+
+/-- a `RuntimeWarning` (division by zero / invalid value) is raised: some centre-to-centre vector
+    is zero, or all edges are zero; for quads (no `VSMALL` in `unit_vector`) also a zero side
+    normal or a zero corner side. -/
+def degenerate (quad : Bool) (s : Sig) : Bool :=
+  s.tris.any (fun t => t.cc == 0) || maxL s.edges == 0 ||
+  (quad && (s.tris.any (fun t => t.nn == 0) || s.corners.any (fun t => t.nn == 0 || t.cc == 0)))
+
+/-! ### opaque float post-processing, as `CellBase.quality` does it -/
+
+def ratToFloat (q : Rat) : Float :=
+  let n := q.num.natAbs
+  let d := q.den
+  if n == 0 then 0.0 else
+  let s : Int := 64 - (n.log2 : Int) + (d.log2 : Int)
+  let qn := if s ≥ 0 then (n <<< s.toNat) / d else n / (d <<< (-s).toNat)
+  let f := Float.scaleB (Float.ofNat qn) (-s)
+  if q.num < 0 then -f else f
+
+def vsmall : Float := 1e-6
+def pi : Float := 3.141592653589793
+
+def qScale (base exponent factor value : Float) : Float := factor * Float.pow base (exponent * value) - factor
+
+def clip1 (x : Float) : Float := if x < -1.0 then -1.0 else if x > 1.0 then 1.0 else x
+
+def degOfCos (c : Float) : Float := 180.0 * Float.acos (clip1 c) / pi
+
+def fsum (xs : List Float) : Float := xs.foldl (· + ·) 0.0
+
+/-- `G_ε`: the value the code computes from the signature (`eps` = VSMALL; hex cells guard the
+    normal and the corner sides, quad cells only the shortest edge). -/
+def G (quad : Bool) (eps : Float) (s : Sig) : Float :=
+  let triCos (t : Tri) : Float :=
+    let n := Float.sqrt (ratToFloat t.nn)
+    let c := Float.sqrt (ratToFloat t.cc)
+    if quad then ratToFloat t.nc / (n * c) else ratToFloat t.nc / ((n + eps) * c)
+  let cornerCos (t : Tri) : Float :=
+    let a := Float.sqrt (ratToFloat t.nn)
+    let b := Float.sqrt (ratToFloat t.cc)
+    if quad then ratToFloat t.nc / (a * b) else ratToFloat t.nc / ((a + eps) * (b + eps))
+  let nonortho := fsum (s.tris.map (fun t => qScale 1.25 0.35 0.8 (degOfCos (triCos t))))
+  let inner := fsum (s.corners.map (fun t => qScale 1.5 0.25 0.15 (Float.abs (degOfCos (cornerCos t) - 90.0))))
+  let smax := Float.sqrt (ratToFloat (maxL s.edges))
+  let smin := Float.sqrt (ratToFloat (minL s.edges)) + eps
+  let aspect := qScale 3.0 2.5 3.0 (Float.log10 (smax / smin))
+  nonortho + inner + aspect
+
+/-- `G₀`: the idealised value (no guard) from the scale-free form alone -/
+def G0 (s : Sig0) : Float :=
+  let cosOf (t : Tri0) : Float := Float.ofInt t.s * Float.sqrt (ratToFloat t.r)
+  let nonortho := fsum (s.tris.map (fun t => qScale 1.25 0.35 0.8 (degOfCos (cosOf t))))
+  let inner := fsum (s.corners.map (fun t => qScale 1.5 0.25 0.15 (Float.abs (degOfCos (cosOf t) - 90.0))))
+  let aspect := qScale 3.0 2.5 3.0 (Float.log10 (Float.sqrt (ratToFloat s.aspect2)))
+  nonortho + inner + aspect
+
+/-- `CellBase.quality` (`none` = `ValueError`); evaluated on the canonical (sorted) signature, so that
+    the value is a function of the *multisets* of entries -/
+def quality (quad : Bool) (s : Sig) : Option Float :=
+  let c := s.canon
+  if degenerate quad c then none else some (G quad vsmall c)
+
+/-- the idealised value (guard = 0), a function of the canonical scale-free form alone -/
+def quality0 (s : Sig) : Float := G0 s.norm.canon
+
+/-- the idealised value is meaningful: no zero norm anywhere -/
+def idealDefined (quad : Bool) (s : Sig) : Bool :=
+  !(degenerate quad s || minL s.edges == 0 || s.tris.any (fun t => t.nn == 0) ||
+      s.corners.any (fun t => t.nn == 0 || t.cc == 0))
+
+/-- smallest distance of an arccos argument from ±1 (conditioning of the float evaluation;
+    reported to the harness, which widens its tolerance when it is tiny) -/
+def cond (s : Sig0) : Float :=
+  (s.tris ++ s.corners).foldl (fun m t => let c := 1.0 - ratToFloat t.r; if c < m then c else m) 1.0
+
+/-! ### cells inside a grid: the neighbour centres come from the grid topology (model of C15) -/
+
+def cellPts (p : List V3) (cell : List Nat) : List V3 := cell.map (pt p)
+
+def sigOfCell (g : C15.Grid) (p : List V3) (ci : Nat) : Sig :=
+  let cell := g.cells.getD ci []
+  let nbs := C15.cellNbrs g ci
+  let nb := fun i => ((nbs.getD i none).map (fun cj => avg (cellPts p (g.cells.getD cj []))))
+  if g.kind.corners == 4 then sigQuadWith g.kind.sideIdx CBV.Gen.quadAspectPairs (cellPts p cell) nb
+  else sigHexWith g.kind.sideIdx CBV.Gen.hexAspectPairs (cellPts p cell) nb
+
+/-! ### the 24 rotations of the hexahedron (used by the theorems and by the harness' self check) -/
+
+/-- blockMesh numbering: local coordinates (x, y, z) of corner `c` -/
+def bitsL (c : Nat) : List Bool := [c % 4 == 1 || c % 4 == 2, c % 4 == 2 || c % 4 == 3, decide (c ≥ 4)]
+
+def cornerOf (b : List Bool) : Nat :=
+  (if b.getD 2 false then 4 else 0) +
+    (match b.getD 0 false, b.getD 1 false with
+      | false, false => 0 | true, false => 1 | true, true => 2 | false, true => 3)
+
+/-- the corner permutation of the signed axis permutation `(π, f)`: new corner `k` (coordinates `b`)
+    is the old corner whose coordinate along axis `π[a]` is `b[a]`, reflected when `f[a]` -/
+def symOf (π : List Nat) (f : List Bool) : List Nat :=
+  (List.range 8).map (fun k =>
+    let b := bitsL k
+    cornerOf ((List.range 3).map (fun a' =>
+      let a := π.idxOf a'
+      xor (b.getD a false) (f.getD a false))))
+
+def evenPerms : List (List Nat) := [[0, 1, 2], [1, 2, 0], [2, 0, 1]]
+def oddPerms : List (List Nat) := [[0, 2, 1], [2, 1, 0], [1, 0, 2]]
+def evenFlips : List (List Bool) := [[false, false, false], [true, true, false], [true, false, true], [false, true, true]]
+def oddFlips : List (List Bool) := [[true, false, false], [false, true, false], [false, false, true], [true, true, true]]
+
+/-- determinant +1: even axis permutation with an even number of reflections, or odd with odd -/
+def rot24 : List (List Nat) :=
+  (evenPerms.flatMap fun π => evenFlips.map (symOf π)) ++ (oddPerms.flatMap fun π => oddFlips.map (symOf π))
+
+/-! ### line protocol -/
+
+def showF (x : Float) : String := toString x.toBits
+
+def showQ (q0 : Option Float) (q : Option Float) (c : Float) : String :=
+  match q with
+  | none => "degenerate"
+  | some v => s!"{showF v}:{match q0 with | some w => showF w | none => "-"}:{showF c}"
+
+/-- `c14.grid kind cells points` → per cell `bits(G_ε):bits(G₀):bits(cond)` or `degenerate` -/
+def handleGrid (args : List String) : Option String :=
+  match args with
+  | [k, cells, pts] => do
+      let kind ← C15.kindOf? k
+      let cells ← C15.parseCells? cells
+      let p ← C15.parsePts? pts
+      let g : C15.Grid := ⟨kind, cells, p.length⟩
+      if !C15.wellFormed g then some "reject" else
+      let quad := kind.corners == 4
+      let out := (List.range cells.length).map (fun ci =>
+        let s := sigOfCell g p ci
+        showQ (if idealDefined quad s then some (quality0 s) else none) (quality quad s) (cond s.norm))
+      some (" ".intercalate out)
+  | _ => none
+
+def handle (op : String) (args : List String) : Option String :=
+  match op with
+  | "c14.grid" => handleGrid args
+  | "c14.rot24" => if args.isEmpty then some (";".intercalate (rot24.map showNatList)) else none
+  | _ => none
 
 end CBV.C14
